@@ -1,5 +1,6 @@
-(* Hamming 24/18 (Model/TtxHam.v): round trip on all 2^18 values, every single bit error corrected (exhaustive sweeps over
-   all data words and positions), every double bit error rejected (for all data words: from the linearity of the tests). *)
+(* Hamming 24/18 (Model/TtxHam.v): for all data words, round trip, every single bit error corrected, every double bit error
+   rejected -- from the linearity of the parity tests (boolean identities closed by btauto) and finite checks over the 24
+   positions; no exhaustive sweep over the 2^18 data words is needed. *)
 From Coq Require Import List NArith Bool Arith Lia Btauto.
 From Astisub Require Import Model.TtxHam.
 Import ListNotations.
@@ -23,23 +24,8 @@ Proof.
     destruct b; [right; left; reflexivity | left; reflexivity].
 Qed.
 
-Lemma sweep_single : forallb (fun d => let w := ham2418_enc_bits d in
-    is_some_eq (ham2418_dec_bits w) d && forallb (fun k => is_some_eq (ham2418_dec_bits (flip w k)) d) (seq 0 24)) (all_bools 18) = true.
-Proof. vm_cast_no_check (eq_refl true). Qed.
-
-(* decoding an encoded word gives the data back, also after any single bit error *)
-Theorem ham2418_bits_roundtrip : forall d, length d = 18%nat -> ham2418_dec_bits (ham2418_enc_bits d) = Some d.
-Proof.
-  intros d H. pose proof sweep_single as S. rewrite forallb_forall in S. specialize (S d (all_bools_in 18 d H)). cbv zeta in S.
-  apply andb_true_iff in S. destruct S as [S _]. unfold is_some_eq in S. destruct (ham2418_dec_bits (ham2418_enc_bits d)); [|discriminate].
-  apply lb_eqb_eq in S. rewrite S. reflexivity.
-Qed.
-Theorem ham2418_bits_single_error : forall d k, length d = 18%nat -> (k < 24)%nat -> ham2418_dec_bits (flip (ham2418_enc_bits d) k) = Some d.
-Proof.
-  intros d k H Hk. pose proof sweep_single as S. rewrite forallb_forall in S. specialize (S d (all_bools_in 18 d H)). cbv zeta in S.
-  apply andb_true_iff in S. destruct S as [_ S]. rewrite forallb_forall in S. specialize (S k ltac:(apply in_seq; lia)).
-  unfold is_some_eq in S. destruct (ham2418_dec_bits (flip (ham2418_enc_bits d) k)); [|discriminate]. apply lb_eqb_eq in S. rewrite S. reflexivity.
-Qed.
+Lemma enc_bits_length_early d : length d = 18%nat -> length (ham2418_enc_bits d) = 24%nat.
+Proof. intros H. do 18 (destruct d as [|? d]; [discriminate|]). destruct d; [|discriminate]. reflexivity. Qed.
 
 (* ---- double errors: the tests are linear ---- *)
 (* which tests (and the overall parity) a flipped position k (0-based) changes *)
@@ -88,9 +74,36 @@ Proof.
   destruct t0, t1, t2, t3, t4; cbn in St |- *; try discriminate; reflexivity.
 Qed.
 
-(* ---- at the level of the three bytes ---- *)
-Lemma bits_num_sweep : forallb (fun d => lb_eqb (bits_of 18 (num_of d)) d) (all_bools 18) = true.
-Proof. vm_cast_no_check (eq_refl true). Qed.
+(* ---- round trip and single errors, from the same linearity (no exhaustive sweep over the data words) ---- *)
+Lemma data_of_enc d : length d = 18%nat -> data_of (ham2418_enc_bits d) = d.
+Proof. intros H. do 18 (destruct d as [|? d]; [discriminate|]). destruct d; [|discriminate]. reflexivity. Qed.
+Lemma flip_flip w : forall k, flip (flip w k) k = w.
+Proof. induction w as [|b r IH]; intros k; [destruct k; reflexivity|]. destruct k; cbn [flip]; [rewrite negb_involutive; reflexivity | rewrite IH; reflexivity]. Qed.
+Lemma data_of_flip_last w : length w = 24%nat -> data_of (flip w 23) = data_of w.
+Proof. intros H. do 24 (destruct w as [|? w]; [discriminate|]). destruct w; [|discriminate]. reflexivity. Qed.
+
+Theorem ham2418_bits_roundtrip : forall d, length d = 18%nat -> ham2418_dec_bits (ham2418_enc_bits d) = Some d.
+Proof. intros d H. unfold ham2418_dec_bits. rewrite (enc_tests d H). cbn. rewrite (data_of_enc d H). reflexivity. Qed.
+
+(* the decoder's decision after one inverted bit, position by position *)
+Lemma single_signatures : forallb (fun k =>
+    let '(t0, t1, t2, t3, t4, tp) := xor6 (true, true, true, true, true, true) (signature k) in
+    negb tp && Nat.eqb ((if t0 then 0 else 1) + (if t1 then 0 else 2) + (if t2 then 0 else 4) + (if t3 then 0 else 8) + (if t4 then 0 else 16))
+                       (if Nat.ltb k 23 then k + 1 else 0)) (seq 0 24) = true.
+Proof. vm_compute. reflexivity. Qed.
+
+Theorem ham2418_bits_single_error : forall d k, length d = 18%nat -> (k < 24)%nat -> ham2418_dec_bits (flip (ham2418_enc_bits d) k) = Some d.
+Proof.
+  intros d k H Hk. unfold ham2418_dec_bits. rewrite (tests_flip _ k _ Hk (enc_tests d H)).
+  pose proof single_signatures as S. rewrite forallb_forall in S. specialize (S k ltac:(apply in_seq; lia)).
+  destruct (xor6 (true, true, true, true, true, true) (signature k)) as [[[[[t0 t1] t2] t3] t4] tp].
+  apply andb_true_iff in S. destruct S as [Sp Ss]. apply negb_true_iff in Sp. subst tp. apply Nat.eqb_eq in Ss. rewrite Ss.
+  destruct (Nat.ltb_spec k 23) as [L|L].
+  - replace (Nat.eqb (k + 1) 0) with false by (symmetry; apply Nat.eqb_neq; lia).
+    replace (Nat.leb (k + 1) 23) with true by (symmetry; apply Nat.leb_le; lia).
+    replace (k + 1 - 1)%nat with k by lia. rewrite flip_flip. rewrite (data_of_enc d H). reflexivity.
+  - assert (k = 23%nat) by lia. subst k. cbn [Nat.eqb]. rewrite (data_of_flip_last _ (enc_bits_length_early d H)). rewrite (data_of_enc d H). reflexivity.
+Qed.
 
 Lemma b2n_if (b : bool) : (if b then 1 else 0) = N.b2n b. Proof. destruct b; reflexivity. Qed.
 Lemma bits_of_S n x : bits_of (S n) x = N.testbit x 0 :: bits_of n (N.div2 x).
